@@ -748,6 +748,12 @@ class Executor:
 
     def narrow_optional(self, test, taken, env):
         """`if x is not None:` / `if x is None:` - on the branch where x is known not None, x is its value."""
+        if isinstance(test, ast.BoolOp):
+            # `a is None or b is None` not taken / `a is not None and b is not None` taken: every operand holds / fails
+            if (isinstance(test.op, ast.Or) and not taken) or (isinstance(test.op, ast.And) and taken):
+                for sub in test.values:
+                    self.narrow_optional(sub, taken, env)
+            return
         if isinstance(test, ast.Compare) and len(test.ops) == 1 and isinstance(test.left, ast.Name) and \
                 isinstance(test.comparators[0], ast.Constant) and test.comparators[0].value is None:
             notnone = taken if isinstance(test.ops[0], ast.IsNot) else (not taken) if isinstance(test.ops[0], ast.Is) else None
